@@ -420,6 +420,36 @@ def state_stream(rep, rng, count):
                 if not numpy.allclose(prod, numpy.eye(2 ** n)):
                     fail("%s >> %s.dagger() is no longer the identity after an evaluated array was overwritten" % (name, name))
                     continue
+            # (a') the dagger of a user-defined gate on several qubits whose matrix is not symmetric
+            # under exchanging its qubits: conjugate transpose, alone and inside a circuit
+            nq = rng.randint(1, 2)
+            dim = 2 ** nq
+            mat = numpy.array([[complex(rng.randint(-2, 2), rng.randint(-2, 2)) for _ in range(dim)] for _ in range(dim)])
+            gate = G.QuantumGate("U%d" % k, nq, mat.flatten().tolist())
+            ev = numpy.array(gate.eval().array, dtype=complex).reshape(dim, dim)
+            dg = numpy.array(gate.dagger().eval().array, dtype=complex).reshape(dim, dim)
+            if not numpy.allclose(dg, ev.conj().T):
+                fail("the dagger of a user-defined %d-qubit gate does not evaluate to the conjugate transpose" % nq)
+                continue
+            inside = numpy.array((G.Ket(*[0] * nq) >> gate.dagger()).eval().array, dtype=complex).flatten()
+            if not numpy.allclose(inside, ev.conj().T.T[0] if False else (ev.conj().T)[0, :] if False else numpy.array(gate.dagger().eval().array, dtype=complex).reshape(dim, dim)[0, :]):
+                fail("a daggered user-defined gate evaluates differently inside a circuit")
+                continue
+            # (a'') a pure circuit evaluated in one call together with a mixed one is still evaluated
+            # to its own unitary, whichever comes first
+            from discopy.quantum.circuit import Circuit, Measure
+            other = G.Ket(0) >> G.H >> Measure()
+            for batch, idx in ((Circuit.eval(other, g), 1), (Circuit.eval(g, other), 0)):
+                gb = batch[idx]
+                if type(gb).__name__ != "Tensor" or not numpy.allclose(
+                        numpy.array(gb.array, dtype=complex).flatten(), ref.flatten()):
+                    fail("%s evaluated in one call together with a mixed circuit gives %s instead of its own tensor" % (
+                        name, type(gb).__name__))
+                    break
+            else:
+                gb = None
+            if gb is not None:
+                continue
             # (b) booleans / numpy ints first, ints afterwards
             bits = [rng.randint(0, 1) for _ in range(rng.randint(1, 3))]
             for maker in (lambda bs: G.Ket(*[bool(b) for b in bs]), lambda bs: G.Bra(*[numpy.int64(b) for b in bs]),
